@@ -5,6 +5,7 @@ package alg
 import (
 	"bytes"
 	"compress/gzip"
+	"crypto/sha512"
 	"embed"
 	"encoding/hex"
 	"encoding/json"
@@ -172,4 +173,135 @@ func RunH2C(cfg Config, res *core.Result) error {
 	res.AddTraces(len(g1.Vectors)*3 + len(g2.Vectors)*3 + len(edMsgs))
 	res.Sample(map[string]any{"suite": g1.Ciphersuite, "msg": g1.Vectors[1].Msg, "P.x": g1.Vectors[1].P.X})
 	return nil
+}
+
+// ---- independent RFC 9380 edwards25519_XMD:SHA-512_ELL2_RO_ (math/big), validated against the RFC's
+// vectors at start-up and then used as the oracle for tags and messages of other lengths ----
+
+func expandXMD512(msg, dst []byte, n int) []byte {
+	if len(dst) > 255 {
+		h := sha512.Sum512(append([]byte("H2C-OVERSIZE-DST-"), dst...))
+		dst = h[:]
+	}
+	ell := (n + 63) / 64
+	dstP := append(append([]byte{}, dst...), byte(len(dst)))
+	mp := make([]byte, 128)
+	mp = append(mp, msg...)
+	mp = append(mp, byte(n>>8), byte(n), 0)
+	mp = append(mp, dstP...)
+	b0 := sha512.Sum512(mp)
+	b1 := sha512.Sum512(append(append(append([]byte{}, b0[:]...), 1), dstP...))
+	out := append([]byte{}, b1[:]...)
+	prev := b1
+	for i := 2; i <= ell; i++ {
+		var x [64]byte
+		for k := range x {
+			x[k] = b0[k] ^ prev[k]
+		}
+		prev = sha512.Sum512(append(append(append([]byte{}, x[:]...), byte(i)), dstP...))
+		out = append(out, prev[:]...)
+	}
+	return out[:n]
+}
+
+func refH2CEd25519(msg, dst []byte) []byte {
+	e := newEdRef()
+	p := e.p
+	mod := func(x *big.Int) *big.Int { return x.Mod(x, p) }
+	J := big.NewInt(486662)
+	uni := expandXMD512(msg, dst, 96)
+	c1 := new(big.Int).ModSqrt(mod(big.NewInt(-486664)), p)
+	if c1.Bit(0) == 1 {
+		c1.Sub(p, c1)
+	}
+	mapOne := func(u *big.Int) refPoint {
+		// elligator 2 on curve25519 (K = 1, Z = 2)
+		t := mod(new(big.Int).Mul(u, u))
+		t = mod(t.Lsh(t, 1))
+		t.Add(t, big.NewInt(1))
+		x1 := new(big.Int)
+		if mod(t).Sign() != 0 {
+			x1 = mod(new(big.Int).Mul(new(big.Int).Neg(J), new(big.Int).ModInverse(t, p)))
+		}
+		if x1.Sign() == 0 {
+			x1 = mod(new(big.Int).Neg(J))
+		}
+		g := func(x *big.Int) *big.Int {
+			x2 := mod(new(big.Int).Mul(x, x))
+			x3 := mod(new(big.Int).Mul(x2, x))
+			r := new(big.Int).Add(x3, new(big.Int).Mul(J, x2))
+			return mod(r.Add(r, x))
+		}
+		gx1 := g(x1)
+		var x, y *big.Int
+		if gx1.Sign() == 0 || big.Jacobi(gx1, p) == 1 {
+			x, y = x1, new(big.Int).ModSqrt(gx1, p)
+			if y.Bit(0) != 1 {
+				y = mod(new(big.Int).Neg(y))
+			}
+		} else {
+			x = mod(new(big.Int).Sub(new(big.Int).Neg(x1), J))
+			y = new(big.Int).ModSqrt(g(x), p)
+			if y.Bit(0) != 0 {
+				y = mod(new(big.Int).Neg(y))
+			}
+		}
+		// rational map to edwards25519
+		xp1 := mod(new(big.Int).Add(x, big.NewInt(1)))
+		if y.Sign() == 0 || xp1.Sign() == 0 {
+			return e.Zero()
+		}
+		v := mod(new(big.Int).Mul(mod(new(big.Int).Mul(c1, x)), new(big.Int).ModInverse(y, p)))
+		w := mod(new(big.Int).Mul(mod(new(big.Int).Sub(x, big.NewInt(1))), new(big.Int).ModInverse(xp1, p)))
+		return refPoint{X: v, Y: w}
+	}
+	u0 := new(big.Int).Mod(new(big.Int).SetBytes(uni[:48]), p)
+	u1 := new(big.Int).Mod(new(big.Int).SetBytes(uni[48:]), p)
+	q := e.Add(mapOne(u0), mapOne(u1))
+	for i := 0; i < 3; i++ {
+		q = e.Add(q, q)
+	}
+	return e.Encode(q)
+}
+
+// RunH2CLengths compares kyber's edwards25519 Hash(m, dst) with the reference for tags and messages of
+// the lengths the property names (tags of 255 and 256 bytes straddle the RFC's oversize-tag rule).
+func RunH2CLengths(cfg Config, res *core.Result) {
+	edMsgs := []string{"", "abc", "abcdef0123456789", "q128_" + strings.Repeat("q", 128), "a512_" + strings.Repeat("a", 512)}
+	want := []string{"3c3da6925a3c3c268448dcabb47ccde5439559d9599646a8260e47b1e4822fc6", "608040b42285cc0d72cbb3985c6b04c935370c7361f4b7fbdb1ae7f8c1a8ecad",
+		"6d7fabf47a2dc03fe7d47f7dddd21082c5fb8f86743cd020f3fb147d57161472", "5fb0b92acedd16f3bcb0ef83f5c7b7a9466b5f1e0d8d217421878ea3686f8524",
+		"0efcfde5898a839b00997fbe40d2ebe950bc81181afbd5cd6b9618aa336c1e8c"}
+	edDst := "QUUX-V01-CS02-with-edwards25519_XMD:SHA-512_ELL2_RO_"
+	er := newEdRef()
+	for i, m := range edMsgs { // self-validation of the reference: x coordinate of the RFC vectors
+		pt, ok := er.Decode(refH2CEd25519([]byte(m), []byte(edDst)))
+		if !ok || pt.X.Cmp(hexInt(want[i])) != 0 {
+			res.Skip("h2c-reference-does-not-reproduce-rfc-vectors")
+			return
+		}
+	}
+	ed := edwards25519.NewBlakeSHA256Ed25519()
+	rng := core.Rng(cfg.Seed, "h2clen")
+	for _, dl := range []int{1, 2, 16, 63, 64, 65, 128, 254, 255, 256, 257, 300} {
+		for _, ml := range []int{0, 1, 63, 64, 65, 300} {
+			dst := make([]byte, dl)
+			msg := make([]byte, ml)
+			rng.Read(dst)
+			rng.Read(msg)
+			for k := range dst { // tags are strings in the API: keep them valid single-byte text
+				dst[k] = 'A' + dst[k]%26
+			}
+			p := ed.Point().(interface {
+				Hash(m []byte, dst string) kyber.Point
+			}).Hash(msg, string(dst))
+			got, _ := p.MarshalBinary()
+			exp := refH2CEd25519(msg, dst)
+			res.Eval(fmt.Sprintf("h2clen|%d|%d", dl, ml))
+			if !bytes.Equal(got, exp) {
+				res.Violate(fmt.Sprintf("%s/ed25519/h2c-reference/dst-len=%d", cfg.Prop, dl),
+					fmt.Sprintf("edwards25519 Hash(m, dst) differs from RFC 9380 for a tag of %d bytes", dl),
+					map[string]any{"dst": string(dst), "msg": hex.EncodeToString(msg), "want": hex.EncodeToString(exp), "got": hex.EncodeToString(got)})
+			}
+		}
+	}
 }
